@@ -971,6 +971,10 @@ where
                 }
             },
             TsType::TsTypeLit(TsTypeLit { members, .. }) => {
+                if members.is_empty() {
+                    // `{}` would otherwise produce an empty type list, which rejects everything
+                    runtime_types.insert(Some(atom!("Object")));
+                }
                 members.iter().for_each(|member| {
                     if let TsTypeElement::TsCallSignatureDecl(..)
                     | TsTypeElement::TsConstructSignatureDecl(..) = member
